@@ -10,7 +10,10 @@ LAYERS = ["Wal"]
 
 def gen_cases(v, out):
     n = 300 if v.tier == "quick" else 6000
-    rc, o = C.sh([C.harness_bin("wal"), "wal", "-out", out, "-n", str(n), "-seed", str(v.seed)], timeout=3000)
+    for f in ("cases.txt", "stats.json"):
+        if os.path.exists(os.path.join(out, f)):
+            os.remove(os.path.join(out, f))
+    rc, o = C.sh([C.harness_bin("wal"), "-out", out, "-n", str(n), "-seed", str(v.seed)], timeout=3000)
     return rc == 0, o
 
 
@@ -82,7 +85,7 @@ def replay(v, path):
     os.makedirs(out, exist_ok=True)
     src = os.path.join(out, "in.txt")
     open(src, "w").write("\n".join(lines) + "\n")
-    rc, o = C.sh([C.harness_bin("wal"), "wal", "-out", out, "-replay", src], timeout=600)
+    rc, o = C.sh([C.harness_bin("wal"), "-out", out, "-replay", src], timeout=600)
     if rc != 0:
         print(o)
         return 2
